@@ -54,6 +54,10 @@ func (ts *ThresholdSigner) Unmarshal(bytes []byte) error {
 		return err
 	}
 
+	if err := validateMemberIndex(pbThresholdSigner.MemberIndex); err != nil {
+		return err
+	}
+
 	groupPublicKey := new(bn256.G2)
 	_, err := groupPublicKey.Unmarshal(pbThresholdSigner.GroupPublicKey)
 	if err != nil {
@@ -88,6 +92,10 @@ func unmarshalGroupPublicKeyShares(
 	var unmarshalled = make(map[group.MemberIndex]*bn256.G2, len(shares))
 
 	for memberID, shareBytes := range shares {
+		if err := validateMemberIndex(memberID); err != nil {
+			return nil, err
+		}
+
 		share := new(bn256.G2)
 		_, err := share.Unmarshal(shareBytes)
 		if err != nil {
@@ -98,6 +106,15 @@ func unmarshalGroupPublicKeyShares(
 	}
 
 	return unmarshalled, nil
+}
+
+func validateMemberIndex(protoIndex uint32) error {
+	// Protobuf does not have uint8 type, so we are using uint32. When
+	// unmarshalling message, we need to make sure we do not overflow.
+	if protoIndex > group.MaxMemberIndex {
+		return fmt.Errorf("invalid member index value: [%v]", protoIndex)
+	}
+	return nil
 }
 
 func unmarshalGroupOperators(groupOperators []string) []chain.Address {
